@@ -28,12 +28,19 @@ RemoveFirstZero(s) ==                                             \* list.remove
   LET z == {j \in 1..Len(s) : s[j] = 0} IN IF z = {} THEN s ELSE RemoveAt(s, MinOf(z))
 Asc(S)         == SortSeq(SetToSeq(S), LAMBDA a, b : a < b)
 (* Context index lists are merged by concatenation.  As the code does it, an index that a later   *)
-(* arrival merely inherited is appended again after newer ones and wins the merge (finding S1);   *)
-(* the intended design keeps the first occurrence only.                                          *)
-RECURSIVE KeepFirst(_, _)
-KeepFirst(s, acc) == IF s = << >> THEN acc
-                     ELSE KeepFirst(Tail(s), IF \E j \in 1..Len(acc) : acc[j] = Head(s) THEN acc ELSE Append(acc, Head(s)))
-IdxCat(a, b) == IF "S1_inherited_delta_reappended" \in Deviations THEN a \o b ELSE KeepFirst(a \o b, << >>)
+(* arrival merely inherited is appended again after newer ones and wins the merge (finding S1).   *)
+(* In the intended design an inherited delta is not re-applied after a delta whose publisher had *)
+(* already seen it (S.cseen[i] = the indices the publisher of entry i ran with), and the targets *)
+(* of one transition share one entry.                                                            *)
+RECURSIVE MergeSeen(_, _, _)
+MergeSeen(S, acc, rest) ==
+  IF rest = << >> THEN acc
+  ELSE LET x == Head(rest)
+           older == \E j \in 1..Len(acc) : acc[j] + 1 <= Len(S.cseen) /\ x \in S.cseen[acc[j] + 1]
+       IN MergeSeen(S, IF older THEN acc ELSE Append(acc, x), Tail(rest))
+IdxCat(S, a, b) ==
+  IF "S1_inherited_delta_reappended" \in Deviations \/ "cseen" \notin DOMAIN S THEN a \o b
+  ELSE MergeSeen(S, a, b)
 
 LatestIdx(S)   == {S.ptr[k] + 1 : k \in DOMAIN S.ptr}            \* last_occurrence=True (l.94, 104)
 HasStatusIn(S, sts) == \E i \in LatestIdx(S) : S.seq[i].st \in sts
@@ -200,7 +207,8 @@ PushToActive(S, idxs, status) ==                                  \* request_wor
 (* ------------------------------------------------------------------------------------------ *)
 (* API: construction                                                                          *)
 S0 == [wf |-> "null", seq |-> << >>, staged |-> << >>, ctxs |-> << >>, routes |-> << >>,
-       ptr |-> << >>, errs |-> << >>, hasout |-> FALSE, out |-> << >>, reruns |-> << >>]
+       ptr |-> << >>, errs |-> << >>, hasout |-> FALSE, out |-> << >>, reruns |-> << >>,
+       cseen |-> << >>]        \* (model only: per context entry, the entries its publisher ran with)
 
 RECURSIVE RollVars(_, _, _)
 RollVars(vs, i, ctx) ==                                           \* render_vars (models.py)
@@ -218,7 +226,7 @@ New(d) ==                                                         \* workflow_st
   LET rv == RollVars(d.vars, 1, << >>) IN
   IF rv.nerr > 0
   THEN [LogN(S0, rv.nerr, "expr", "none", -1, "none") EXCEPT !.wf = "failed"]
-  ELSE [S0 EXCEPT !.ctxs = <<rv.ctx>>, !.routes = << << >> >>,
+  ELSE [S0 EXCEPT !.ctxs = <<rv.ctx>>, !.cseen = <<{}>>, !.routes = << << >> >>,
                   !.staged = [i \in 1..Len(RootsInOrder(d)) |->
                                 NewStaged(RootsInOrder(d)[i], 0, <<0>>, << >>, TRUE, FALSE)]]
 
@@ -355,7 +363,10 @@ StepEdge(d, acc, li, t, r, e, res) ==
       \* in the intended design (S1 repaired) the targets of one transition share one entry, so that a
       \* join can tell an inherited delta from a new one by its index.
       shared == "S1_inherited_delta_reappended" \notin Deviations /\ e.ti \in DOMAIN acc.pidx
-      S2  == IF hasNew /\ ~shared THEN [S1 EXCEPT !.ctxs = Append(@, pr.new)] ELSE S1
+      S2  == IF hasNew /\ ~shared
+             THEN LET Sx == [S1 EXCEPT !.ctxs = Append(@, pr.new)] IN
+                  IF "cseen" \in DOMAIN S1 THEN [Sx EXCEPT !.cseen = Append(@, {rc.ctxin[q] : q \in 1..Len(rc.ctxin)})] ELSE Sx
+             ELSE S1
       nidx == IF shared THEN acc.pidx[e.ti] ELSE Len(S2.ctxs) - 1
       out == IF hasNew THEN Append(rc.ctxin, nidx) ELSE rc.ctxin
       pidx1 == IF hasNew THEN (e.ti :> nidx) @@ acc.pidx ELSE acc.pidx
@@ -373,7 +384,7 @@ StepEdge(d, acc, li, t, r, e, res) ==
       backref == Tid(t, e.key)
       S4  == IF si # 0
              THEN \* merge into the entry already staged (l.1028-1040)
-                  [S3 EXCEPT !.staged[si].ctxin = IdxCat(@, RemoveFirstZero(out)),
+                  [S3 EXCEPT !.staged[si].ctxin = IdxCat(S3, @, RemoveFirstZero(out)),
                              !.staged[si].prev = Upd(@, backref, li - 1),
                              \* fix da1bdf7: items are kept while some item is active
                              !.staged[si].hasitems = IF ItemsActive(S3.staged[si]) THEN @ ELSE FALSE,
@@ -489,7 +500,7 @@ RunQueue(d, S, q) ==
 TermCtx(S) ==                                                      \* get_workflow_terminal_context
   LET terms == Asc({i \in 1..Len(S.seq) : S.seq[i].term})
       idxs  == IF terms = << >> THEN << >>
-               ELSE IdxCat(S.seq[terms[1]].ctxin,
+               ELSE IdxCat(S, S.seq[terms[1]].ctxin,
                     FlattenSeq([k \in 1..(Len(terms) - 1) |->
                        \* in_ctx_idxs.remove(0): the first occurrence of 0 is dropped
                        RemoveFirstZero(S.seq[terms[k + 1]].ctxin)]))
